@@ -135,10 +135,18 @@ func (b *Batch) Add(id string, req *ir.Request, o AddOpts) (*Item, error) {
 		it.Results[p] = res
 		return res, nil
 	}
-	pg, err := run(plug.ProtocGo, "")
+	// protoc-gen-go output is needed for EVERY user file, imported-only ones included (a real
+	// project compiles them too): the generated code of a file calls its imports' init functions
+	pgReq := it.Req.Clone()
+	pgReq.Generate = nil
+	for _, f := range pgReq.Files {
+		pgReq.Generate = append(pgReq.Generate, f.Name)
+	}
+	pg, err := plug.Run(plug.ProtocGo, pgReq, nil)
 	if err != nil {
 		return nil, err
 	}
+	it.Results[plug.ProtocGo] = pg
 	if !pg.OK() {
 		e := ""
 		if pg.Error != nil {
